@@ -40,8 +40,10 @@ func handleRequestID(r *http.Request, w http.ResponseWriter, cfg config.LoggingC
 	requestID := strings.TrimSpace(r.Header.Get(header))
 	if requestID == "" {
 		requestID = generateIdentifier("req")
-		r.Header.Set(header, requestID)
 	}
+	// The backend must see exactly the value the client gets back (TrimSpace also strips
+	// Unicode spaces such as U+00A0, which HTTP parsing leaves in the header value)
+	r.Header.Set(header, requestID)
 	w.Header().Set(header, requestID)
 	return requestID
 }
@@ -54,8 +56,8 @@ func handleTraceID(r *http.Request, w http.ResponseWriter, cfg config.LoggingCon
 	traceID := strings.TrimSpace(r.Header.Get(header))
 	if traceID == "" {
 		traceID = generateIdentifier("trace")
-		r.Header.Set(header, traceID)
 	}
+	r.Header.Set(header, traceID)
 	w.Header().Set(header, traceID)
 	return traceID
 }
